@@ -358,12 +358,17 @@ class _Scalar(_CData):
     def value(self, v):
         self._bv = to_bv(v, self._bits_)
 
+    _big_endian_ = False      # True for the __ctype_be__ variants: most significant byte first
+
     def _to_bvs(self):
-        return [z3.Extract(8 * i + 7, 8 * i, self._bv) for i in range(self._bits_ // 8)]
+        bs = [z3.Extract(8 * i + 7, 8 * i, self._bv) for i in range(self._bits_ // 8)]
+        return list(reversed(bs)) if self._big_endian_ else bs
 
     @classmethod
     def _from_bvs(cls, bs):
         o = cls.__new__(cls)
+        if cls._big_endian_:
+            bs = list(reversed(bs))
         o._bv = z3.Concat(*reversed(bs)) if len(bs) > 1 else bs[0]
         return o
 
@@ -372,7 +377,15 @@ class _Scalar(_CData):
 
 
 def _scalar(name, real, bits, signed):
-    return _Meta(name, (_Scalar,), {"_real_": real, "_bits_": bits, "_signed_": signed})
+    le = _Meta(name, (_Scalar,), {"_real_": real, "_bits_": bits, "_signed_": signed})
+    if bits > 8:
+        be = _Meta(name + "_be", (_Scalar,), {"_real_": real.__ctype_be__, "_bits_": bits, "_signed_": signed, "_big_endian_": True})
+    else:
+        be = le
+    le.__ctype_le__, le.__ctype_be__ = le, be
+    if be is not le:
+        be.__ctype_le__, be.__ctype_be__ = le, be
+    return le
 
 
 c_uint8 = _scalar("c_uint8", _rc.c_uint8, 8, False)
